@@ -351,21 +351,24 @@ pub fn run(opts: &Opts) -> i32 {
         if m.kind == 3 {
           monitor_violations += 1;
           let props: Vec<String> = if m.got.starts_with("viol:") { m.got[5..].split(',').map(|s| s.split('/').next().unwrap().to_string()).collect() } else { vec!["?".to_string()] };
+          if findings.iter().filter(|f| f["kind"] == "property" && f["what"] == serde_json::json!(m.got)).count() >= 3 { continue; }
           findings.push(serde_json::json!({"suite":"loop","kind":"property","properties":props,"what":m.got,"layout":p.layout,"layout_json":p.layout_json,"schedule":p.schedule,"fail_at":p.fail_at,"answers":p.script,"calls":p.calls,"status":p.status,"tolerance_ns":p.tol}));
         }
         else {
           divergences += 1;
+          if findings.iter().filter(|f| f["kind"] == "divergence").count() >= 10 { continue; }
           findings.push(serde_json::json!({"suite":"loop","kind":"divergence","properties":[],"what":m.got,"layout":p.layout,"layout_json":p.layout_json,"schedule":p.schedule,"fail_at":p.fail_at,"answers":p.script,"calls":p.calls,"status":p.status,"tolerance_ns":p.tol}));
         }
       }
     }
     pend.clear();
-    if findings.len() > 30 { break; }
+    if findings.len() > 60 { break; }
   }
   lean.finish();
 
+  findings.sort_by_key(|f| if f["kind"] == "property" { 0 } else { 1 });
   for (i, f) in findings.iter().enumerate() {
-    if i >= 30 { break; }
+    if i >= 60 { break; }
     let path = format!("{}/finding_{}_{}.json", out_dir, seed, i);
     std::fs::write(&path, serde_json::to_string_pretty(f).unwrap()).unwrap();
     let props: Vec<String> = f["properties"].as_array().unwrap().iter().map(|x| x.as_str().unwrap().to_string()).collect();
